@@ -18,13 +18,19 @@
 #   M9  internal_merge: cumulative_wt_ = final_cum_wt dropped                        -> cum_weight_exact (116.99999999999999 != 117), correspondence
 #   M10 internal_merge: partial item replayed with the full avg_wt                   -> c_closed_form
 #   M11 the fix itself removed (wt_max_ = new_wt_max)                                -> c_closed_form (fixed cases fix_wmax_*)
-# HARMLESS rewrites confirmed NOT reported (exit 0): see the end of this header.
+#   M12 internal_update: a zero weight is counted in n_                              -> n_exact
+# HARMLESS rewrites confirmed NOT reported (exit 0, same 286 validated cases as the unmodified tree):
+#   H1  ebpps_sample ctor: data_.reserve(reserved_size) removed
+#   H2  internal_update: the four independent state assignments (cumulative_wt_, wt_max_, rho_, ++n_) in reverse order
+#   H3  move_one_to_partial: the `if (idx != last_idx)` guard around the swap removed (self-swap)
+#   H4  get_sample: result.reserve + std::copy/back_inserter replaced by a push_back loop
+#   M13 ebpps_sample::deserialize (bytes): has_partial = c_frac > 0.5 instead of != 0 -> correspondence (round trip loses the partial item)
 import struct
 from fractions import Fraction
 from collections import Counter
 
 PROP = "C18"
-READY = False
+READY = True      # green against /repo once fixes/18_ebpps_merge_wt_max.patch is applied (until then: VIOLATION c_closed_form on fix_wmax_*)
 COQ_PROPS = ['Properties_C18']
 RULE = ('operation scripts over several ebpps_sketch<int64_t> registers, every random choice (next_double, random_idx) supplied by the hooked '
         'source and replayed by the model: k in 1..32 (sometimes 100), weight profiles uniform / 2^i spread / heavy tail / increasing / decreasing / '
